@@ -288,6 +288,7 @@ class Profile:
         build_on=("obj", "glob"),
         any_callee=False,
         rebind_dead_names=False,
+        list_ops_on_obj=False,
     ):
         self.ops = tuple(ops)
         self.globs = tuple(globs)
@@ -312,6 +313,9 @@ class Profile:
         # `from B import f` then rebinds a name nothing refers to; the shapes of KF-C03-1 all need a
         # live earlier global).  Rebinding *to* a builtin is never allowed: builtins are not imported.
         self.rebind_dead_names = rebind_dead_names
+        # APPEND / APPENDS (also with an empty slice) on a call result, as for list subclasses and
+        # deques (the VM only needs .append / .extend); opt-in: fickling refuses these today
+        self.list_ops_on_obj = list_ops_on_obj
 
 
 FOCUS_OPS = (
@@ -396,6 +400,8 @@ ENUM_PROFILES = {"containers": container_profile, "aliasing": alias_profile, "kw
 
 
 def full_profile(globs, buffers=False, **kw):
+    if kw.get("list_ops_on_obj"):
+        kw.setdefault("no_mutation_after_capture", True)
     # default weight is 2; opcodes fickling does not implement get 1 (they end in a refusal)
     weights = {
         "GLOBAL": 10, "REDUCE": 12, "OBJ": 8, "INST": 5, "NEWOBJ": 8, "NEWOBJ_EX": 8, "BUILD": 6,
@@ -628,6 +634,12 @@ class State:
                 return mi >= 1 and st[mi - 1].k != "mark"
         if op == "BUILD":
             return self._seg(2) and st[-2].k in p.build_on
+        if p.list_ops_on_obj and op == "APPEND" and self._seg(2) and st[-2].k == "obj":
+            return True
+        if p.list_ops_on_obj and op == "APPENDS" and t is not None:
+            mi = len(st) - 1 - t
+            if mi >= 1 and st[mi - 1].k == "obj":
+                return True
         if op == "APPEND":
             return (
                 self._seg(2)
